@@ -9,7 +9,7 @@
 namespace sim
 {
 
-std::vector<std::string> keys_for(std::initializer_list<const char*> grammars, bool with_pnode = true);
+std::vector<std::string> keys_for(std::initializer_list<const char*> grammars, bool with_pnode = true, bool with_xnode = false);
 std::vector<std::string> regex_keys();
 
 struct OpShape
